@@ -79,6 +79,13 @@ func busStart(id string, token string, clients func(nc *nats.Conn) []client.RunS
 		AuthToken:    token,
 		ID:           id,
 	}
+	return busStartOpts(o, clients)
+}
+
+// busStartOpts starts an instance on the given options (ports and store file): used to start an instance again on the
+// file and ports of one that was halted ("upstream restarted").
+func busStartOpts(o server.Options, clients func(nc *nats.Conn) []client.RunStop) (*busServer, error) {
+	file := o.StoreFile
 	s, nc, err := server.NewServer(o)
 	if err != nil {
 		return nil, err
